@@ -61,7 +61,7 @@ theorem stepWorld_ok {k : Key2} {m : Int} (hm : 0 ≤ m) {s : Sim} (hI : SInv k 
     split
     · exact ⟨⟨hW, p, hX⟩, Past.refl k _⟩
     · exact fr _ (by rfl) (by rfl) (by rfl)
-  | metric t text key =>
+  | metric t text key nm =>
     simp only [stepWorld]
     split
     · exact fr _ (by rfl) (by rfl) (by rfl)
